@@ -1,6 +1,12 @@
 Graph.vo Graph.glob Graph.v.beautified Graph.required_vo: Graph.v 
 Graph.vio: Graph.v 
 Graph.vos Graph.vok Graph.required_vos: Graph.v 
+GraphFacts.vo GraphFacts.glob GraphFacts.v.beautified GraphFacts.required_vo: GraphFacts.v Graph.vo
+GraphFacts.vio: GraphFacts.v Graph.vio
+GraphFacts.vos GraphFacts.vok GraphFacts.required_vos: GraphFacts.v Graph.vos
 Sched.vo Sched.glob Sched.v.beautified Sched.required_vo: Sched.v Graph.vo
 Sched.vio: Sched.v Graph.vio
 Sched.vos Sched.vok Sched.required_vos: Sched.v Graph.vos
+SchedInv.vo SchedInv.glob SchedInv.v.beautified SchedInv.required_vo: SchedInv.v Graph.vo GraphFacts.vo Sched.vo
+SchedInv.vio: SchedInv.v Graph.vio GraphFacts.vio Sched.vio
+SchedInv.vos SchedInv.vok SchedInv.required_vos: SchedInv.v Graph.vos GraphFacts.vos Sched.vos
